@@ -69,7 +69,13 @@ static size_t gen(struct rng* r, unsigned char* b, int depth) {
   switch (rnd(r) % (depth <= 0 ? 5 : 9)) {
     case 0: b[0] = (unsigned char)(rnd(r) % 24); return 1;
     case 1: b[0] = 0x19; b[1] = (unsigned char)rnd(r); b[2] = (unsigned char)rnd(r); return 3;
-    case 2: { size_t l = rnd(r) % 6; b[0] = (unsigned char)(0x60 + l); for (size_t i = 0; i < l; i++) b[1 + i] = (unsigned char)('a' + rnd(r) % 26); return 1 + l; }
+    case 2: { /* text: ASCII, multi-byte scalars, and ill-formed sequences (code point count 0) */
+      static const char* frag[] = {"a", "\xc3\xa9", "\xe2\x82\xac", "\xf0\x9f\x98\x80", "\xff", "\xc3", "\xed\xa0\x80", "z"};
+      size_t n = 1, k = rnd(r) % 5;
+      for (size_t i = 0; i < k; i++) { const char* f = frag[rnd(r) % 8]; size_t fl = strlen(f); memcpy(b + n, f, fl); n += fl; }
+      b[0] = (unsigned char)(0x60 + (n - 1));
+      return n;
+    }
     case 3: b[0] = 0xfb; for (int i = 0; i < 8; i++) b[1 + i] = (unsigned char)rnd(r); b[1] &= 0x3f; return 9;
     case 4: b[0] = (unsigned char)(0xf4 + rnd(r) % 4); return 1;
     case 5: { size_t c = rnd(r) % 4, n = 1; b[0] = (unsigned char)(0x80 + c); for (size_t i = 0; i < c; i++) n += gen(r, b + n, depth - 1); return n; }
@@ -157,6 +163,7 @@ static uint64_t workload(uint64_t seed, long ops, int with_shared) {
     h = fnv(h, &res.error.code, sizeof res.error.code);
     h = fnv(h, &res.read, sizeof res.read);
     if (it) {
+      if (cbor_isa_string(it) && cbor_string_is_definite(it)) { size_t cp = cbor_string_codepoint_count(it); h = fnv(h, &cp, sizeof cp); }
       size_t w = cbor_serialize(it, out, sizeof out);
       h = fnv(h, out, w);
       unsigned char* ab = NULL; size_t abs_ = 0;
@@ -176,6 +183,29 @@ static uint64_t workload(uint64_t seed, long ops, int with_shared) {
     h = fnv(h, out, w4);
     cbor_decref(&arr);
     cbor_decref(&tg);
+    /* now and then: a chain of arrays deeper than the decoder would ever produce, built and released through the API; and an item
+     * whose declared payload makes its serialized size overflow (the size function must say 0, here and in every other thread) */
+    if (i % 64 == 7) {
+      cbor_item_t* top = cbor_build_uint8(1);
+      for (int d = 0; d < CBOR_MAX_STACK_SIZE + 40 && top; d++) {
+        cbor_item_t* a = cbor_new_definite_array(1);
+        if (!a) break;
+        (void)cbor_array_push(a, top);
+        cbor_decref(&top);
+        top = a;
+      }
+      if (top) cbor_decref(&top);
+    }
+    if (i % 16 == 5) {
+      cbor_item_t* hb = cbor_new_definite_bytestring();
+      unsigned char* blk = t_malloc(8);
+      memset(blk, 0, 8);
+      cbor_bytestring_set_handle(hb, blk, SIZE_MAX - (size_t)(rnd(&r) % 4));
+      size_t hs = cbor_serialized_size(hb);
+      h = fnv(h, &hs, sizeof hs);
+      cbor_bytestring_set_handle(hb, blk, 8);
+      cbor_decref(&hb);
+    }
     /* streaming decoder, encoders */
     size_t el = cbor_encode_uint(rnd(&r), out, 16);
     h = fnv(h, out, el);
